@@ -344,6 +344,47 @@ fn limb_carry_value(l: L, r1: u128, r2: u128) -> u128 {
     l.wrap(&r)
 }
 
+/// A value whose k-digit decimal sits a hair inside the edge of its own rounding interval: the k-digit decimal
+/// D = N / 10^k lies within r / (2 * 5^k) ulp above x - ulp/2 (or below x + ulp/2), r small. These are the hard
+/// cases of shortest round-trip printing and of the parser's tie detection; uniform values come this close to an
+/// interval edge with probability about r / 5^k. Solved: N * 2^(f+1-k) = -+r (mod 5^k).
+fn interval_edge_value(l: L, r1: u128, r2: u128) -> u128 {
+    let kmax = (l.f as usize * 30103 / 100000).min(54);
+    if kmax < 2 || l.f < 8 {
+        return near_short_decimal(l, r1, r2);
+    }
+    let k = 1 + (r1 % kmax as u128) as u32;
+    let k = if (r1 >> 8) & 1 == 1 { kmax as u32 - (r1 >> 9) as u32 % 12u32.min(kmax as u32) } else { k }.max(1);
+    let e = l.f + 1 - k.min(l.f);
+    let m5 = Big::from_u64(5).pow(k);
+    // inverse of 2^e modulo 5^k: ((5^k + 1) / 2)^e
+    let half = m5.add_i64(1).shr_floor(1);
+    let mut inv = Big::one();
+    let mut base = half;
+    let mut ee = e;
+    while ee > 0 {
+        if ee & 1 == 1 {
+            inv = inv.mul(&base).rem_trunc(&m5);
+        }
+        base = base.mul(&base).rem_trunc(&m5);
+        ee >>= 1;
+    }
+    let r = 1 + ((r2 >> 8) % 8) as i64;
+    let upper = (r2 >> 16) & 1 == 1; // hair below x + ulp/2 instead of above x - ulp/2
+    let target = if upper { m5.add_i64(-r) } else { Big::from_i64(r) };
+    // N in [0, 5^k), optionally shifted by multiples of 5^k while it stays a k-digit number (any N = n0 + j 5^k works)
+    let n0 = target.mul(&inv).rem_trunc(&m5);
+    let j = Big::from_u128((r2 >> 24) % (1u128 << k.min(100)));
+    let n = n0.add(&j.mul(&m5));
+    // M = floor(N 2^e / 5^k) = 2x - 1 (lower edge) or 2x (upper edge)
+    let mm = n.shl(e).div_floor(&m5);
+    let x = if upper { mm.shr_floor(1) } else { mm.add_i64(1).shr_floor(1) };
+    let ip = if l.int_bits() > 8 { Big::from_u128((r2 >> 100) % 40).shl(l.f) } else { Big::zero() };
+    let x = x.add(&ip);
+    let x = if (r2 >> 20) & 1 == 1 && l.signed { x.neg() } else { x };
+    l.wrap(&x)
+}
+
 fn precision_from(sel: usize, r: u128, l: L) -> Option<usize> {
     match sel % 8 {
         0 | 1 | 2 => None,
@@ -446,12 +487,13 @@ impl Engine for Text {
                     })
                     .boxed()
             }
-            "C09" => (layout_or(stratum), pick(6), ing(), pick(5), any::<u128>(), any::<u128>(), (pick(NCOMBO), pick(8), pick(4)))
+            "C09" => (layout_or(stratum), pick(6), ing(), pick(6), any::<u128>(), any::<u128>(), (pick(NCOMBO), pick(8), pick(4)))
                 .prop_map(|(lay, tr, ia, amode, r1, r2, (combo, psel, wsel))| {
                     let l = L::from_idx(lay as usize);
                     let a = match amode {
                         0 | 1 => pattern(l, ia),
                         4 => limb_carry_value(l, r1, r2),
+                        5 => interval_edge_value(l, r1, r2),
                         _ => near_short_decimal(l, r1, r2),
                     };
                     let prec = precision_from(psel, r1 >> 64, l);
